@@ -148,6 +148,7 @@ func c08GenOpt(r *RNG, id string, allowComma bool) *Case {
 	c.Set("ignore", strings.Join(ign, ","))
 	c.SetBool("table", r.Chance(1, 3))
 	c.NonTrv = true
+	maybeCLI(r, c, 6)
 	return c
 }
 
@@ -159,6 +160,36 @@ func runTopRanking(c *Case, qtype, ttype string, qTxt, tTxt string) result {
 	}
 	g := func(k string) int { return atoi(c.Get(k)) }
 	thr := float32(g("thrn")) / float32(max1(g("thrd")))
+	if isCLI(c) {
+		ext := map[string]string{"fasta": ".fasta", "csv": ".csv"}
+		files := map[string]string{"r.fa": refTxt, "q" + ext[qtype]: qTxt, "t" + ext[ttype]: tTxt}
+		args := []string{"updown", "topranking", "-r", "{dir}/r.fa", "-q", "{dir}/q" + ext[qtype], "-t", "{dir}/t" + ext[ttype]}
+		for _, k := range []string{"sizetotal", "sizeup", "sizedown", "sizeside", "sizesame", "distall", "distup", "distdown", "distside", "distpush"} {
+			if g(k) != 0 {
+				flag := map[string]string{"sizetotal": "--size-total", "sizeup": "--size-up", "sizedown": "--size-down", "sizeside": "--size-side", "sizesame": "--size-same",
+					"distall": "--dist-all", "distup": "--dist-up", "distdown": "--dist-down", "distside": "--dist-side", "distpush": "--dist-push"}[k]
+				args = append(args, flag, fmt.Sprint(g(k)))
+			}
+		}
+		args = append(args, "--threshold-pair", decStr(g("thrn"), max1(g("thrd"))), "--threshold-target", fmt.Sprint(g("threshtarg")))
+		if c.Get("nofill") == "1" {
+			args = append(args, "--no-fill")
+		}
+		if c.Get("table") == "1" {
+			args = append(args, "--table")
+		}
+		if len(ign) > 0 {
+			// one ID per line; the last line with or without its line end, LF or CRLF
+			eol := []string{"\n", "\r\n"}[len(c.ID)%2]
+			txt := strings.Join(ign, eol)
+			if len(ign)%2 == 0 {
+				txt += eol
+			}
+			files["ignore.txt"] = txt
+			args = append(args, "--ignore", "{dir}/ignore.txt")
+		}
+		return viaCLI(files, "", args, nil)
+	}
 	return safeRun(30*time.Second, func() (string, error) {
 		var out bytes.Buffer
 		err := updown.TopRanking(strings.NewReader(qTxt), strings.NewReader(tTxt), strings.NewReader(refTxt), &out, c.Get("table") == "1",
